@@ -6,7 +6,7 @@
 (* ones.  Finished programs are exported as JSON (inputs only).          *)
 EXTENDS EQLSyntax, Json
 
-CONSTANTS G,           \* grammar: "G12" (NV variables), "G3s"/"G3v"/"G1x" three-variable vocabularies, "G3" for_all, "G6" sub-queries, "G7i"/"G7o" flatten, "G7c" concatenate
+CONSTANTS G,           \* grammar: "G12" (NV variables), "G3s"/"G3v"/"G1x"/"G3w"/"G3ws" three-variable vocabularies, "G3" for_all, "G6" sub-queries, "G7i"/"G7o" flatten, "G7c" concatenate
           NV,          \* number of declared variables for G12
           LeafLimit,   \* use the first LeafLimit leaves of the vocabulary
           MaxLeaves,   \* leaves per tree
@@ -27,8 +27,12 @@ AllLeaves == CASE G = "G12" -> (IF NV = 1 THEN LeavesG1 ELSE LeavesG2(NV))
                \* four leaves over the variable sets {1,2}, {1,3}, {1}, {1,3}, each used at most once in a tree: a conjunction of
                \* two disjunctions leaves results in the conjunction's cache under a partial binding (variable 3 unbound) next
                \* to results under a full one, and later lookups match both
-               [] G = "G3w" -> << CmpC("ne", At(V(1), "n"), At(V(2), "m")), CmpC("eq", At(V(1), "m"), At(V(3), "m")),
-                                  CmpC("eq", At(V(1), "n"), LitI(1)), CmpC("lt", At(V(1), "m"), At(V(3), "n")) >>
+               [] G \in {"G3w", "G3ws"} -> << CmpC("ne", At(V(1), "n"), At(V(2), "m")), CmpC("eq", At(V(1), "m"), At(V(3), "m")),
+                                  CmpC("eq", At(V(1), "n"), LitI(1)), CmpC("lt", At(V(1), "m"), At(V(3), "n")),
+                                  \* (LeafLimit > 4) the remaining pair and a condition on variable 2 alone
+                                  CmpC("ge", At(V(2), "n"), At(V(3), "m")), CmpC("eq", At(V(2), "m"), LitI(1)),
+                                  \* (LeafLimit > 6) a condition on variable 3 alone and a second one on the pair {1,2}
+                                  CmpC("ge", At(V(3), "n"), LitI(1)), CmpC("eq", At(V(1), "n"), At(V(2), "n")) >>
                \* variables compared directly (not through an attribute), for pools of queries that share their variables
                [] G = "G3s" -> << CmpC("ge", At(V(1), "n"), LitI(1)), CmpC("eq", V(2), At(V(3), "ref")),
                                   CmpC("lt", At(V(2), "n"), LitI(2)), CmpC("gt", At(V(1), "n"), At(V(2), "n")),
@@ -60,7 +64,7 @@ Selections ==
     \* the selected value may be any value, the falsy members of its sort and None included
     [] G = "G1s" -> << Sel("entity", <<At(V(1), "o")>>), Sel("entity", <<At(V(1), "n")>>), Sel("set_of", <<At(V(1), "o")>>),
                        Sel("entity", <<At(V(1), "s")>>), Sel("set_of", <<At(V(1), "o"), V(1)>>) >>
-    [] G = "G3w" -> << Sel("set_of", <<V(1), V(2), V(3)>>), Sel("set_of", <<V(2), V(3)>>) >>
+    [] G \in {"G3w", "G3ws"} -> << Sel("set_of", <<V(1), V(2), V(3)>>), Sel("set_of", <<V(2), V(3)>>), Sel("set_of", <<V(3)>>) >>
     [] G = "G3v" -> << Sel("set_of", <<V(3), V(1)>>), Sel("set_of", <<V(1), V(2), V(3)>>), Sel("entity", <<V(2)>>) >>
     [] G = "G12" ->
        (IF NV = 1 THEN << Sel("entity", <<V(1)>>) >>
@@ -97,7 +101,7 @@ UsesLeaf(c, lf) == CASE c.k \in {"and", "or"} -> UsesLeaf(c.l, lf) \/ UsesLeaf(c
                      [] c.k \in {"not", "forall"} -> UsesLeaf(c.c, lf)
                      [] OTHER -> c = lf
 PushLeaf(j) == /\ done = <<>> /\ Total < MaxLeaves
-               /\ (G = "G3w" => \A i \in 1..Len(stack) : ~UsesLeaf(stack[i], Leaves[j]))
+               /\ (G \in {"G3w", "G3ws"} => \A i \in 1..Len(stack) : ~UsesLeaf(stack[i], Leaves[j]))
                /\ stack' = Append(stack, Leaves[j]) /\ UNCHANGED done
 ApplyNot(form) == /\ done = <<>> /\ stack # <<>> /\ NotDepth(Top) < MaxNot /\ Top.k # "forall" /\ ~HasSub(Top)
                   /\ stack' = Append(Pop(1), NotC(Top, form)) /\ UNCHANGED done
@@ -105,6 +109,9 @@ ApplyBin(kind, form) ==
   /\ done = <<>> /\ Len(stack) >= 2
   /\ (kind = "or" => ~HasSubOperand(Top) /\ ~HasSubOperand(stack[Len(stack) - 1]))
   /\ (G = "G2n" => NLeaves(Top) = 1)                     \* left-deep: the right operand is always a leaf
+  \* G3ws: only the conjunctions of two disjunctions of G3w - and_(or_(a, b), or_(c, d))
+  /\ (G = "G3ws" => IF kind = "or" THEN NLeaves(Top) = 1 /\ NLeaves(stack[Len(stack) - 1]) = 1
+                    ELSE Top.k = "or" /\ stack[Len(stack) - 1].k = "or")
   /\ LET l == stack[Len(stack) - 1] r == Top
      IN stack' = Append(Pop(2), IF kind = "and" THEN AndC(l, r, form) ELSE OrC(l, r, form))
   /\ UNCHANGED done
@@ -118,6 +125,7 @@ PushOuter(j, side) == /\ G \in {"G3", "G3y"} /\ done = <<>> /\ Len(stack) = 1 /\
 Finish(s) == /\ done = <<>> /\ Len(stack) = 1
              /\ (NeedNot => HasNot(Top))
              /\ (G \in {"G3", "G3y"} => HasForAll(Top))
+             /\ (G = "G3ws" => Top.k = "and")
              /\ done' = <<IF G = "G4"
                            THEN [desc |-> "entity", sel |-> <<>>, flats |-> <<>>, bound |-> <<>>, cond |-> Top,
                                  head |-> Selections[s].head]
